@@ -33,6 +33,17 @@ var wrapKinds = []error{nil, context.Canceled, context.DeadlineExceeded, io.ErrU
 
 // FaultErr returns the error value a fault of the given kind injects; errors.Is(result, base) holds for every kind.
 func FaultErr(base error, kind int) error {
+	// kinds 6..8 (writers only): the BARE well-known value, as a pipe, socket or limited writer reports it
+	if base == ErrWriter {
+		switch kind {
+		case 6:
+			return io.EOF
+		case 7:
+			return io.ErrUnexpectedEOF
+		case 8:
+			return io.ErrShortWrite
+		}
+	}
 	if kind <= 0 || kind >= len(wrapKinds) {
 		return base
 	}
@@ -85,7 +96,7 @@ func (r *faultReader) Read(p []byte) (int, error) {
 			limit = r.blockAt // deliver up to the point where the input goes quiet
 		}
 	}
-	if r.failAt >= 0 && r.failAt < limit && !(r.mode == 2 && r.failed) {
+	if r.failAt >= 0 && r.failAt < limit && !((r.mode == 2 || r.mode == 3) && r.failed) {
 		limit = r.failAt
 	}
 	if r.mode == 2 && r.failAt >= 0 && r.failAt <= len(r.doc) && !r.failed && r.pos >= r.failAt {
@@ -94,7 +105,10 @@ func (r *faultReader) Read(p []byte) (int, error) {
 		return 0, r.errv
 	}
 	if r.pos >= limit {
-		if r.failAt >= 0 && r.failAt <= len(r.doc) && r.mode != 2 {
+		if r.failAt >= 0 && r.failAt <= len(r.doc) && r.mode != 2 && !(r.mode == 3 && r.failed) {
+			if r.mode == 3 {
+				r.failed = true
+			}
 			return 0, r.errv
 		}
 		return 0, io.EOF
@@ -117,6 +131,11 @@ func (r *faultReader) Read(p []byte) (int, error) {
 		r.cancel = nil
 	}
 	if r.mode == 1 && r.failAt >= 0 && r.pos == limit && limit == r.failAt {
+		return n, r.errv
+	}
+	if r.mode == 3 && r.failAt >= 0 && !r.failed && r.pos == limit && limit == r.failAt {
+		// the error arrives together with the last bytes before it, ONCE; the next Read carries on (more data or EOF)
+		r.failed = true
 		return n, r.errv
 	}
 	return n, nil
